@@ -4,7 +4,7 @@ id=$1; k=$2; chk=$3; shift 3
 wt=/tmp/trywt_${id}_$k
 git -C /repo worktree remove --force $wt >/dev/null 2>&1
 git -C /repo worktree add -q $wt HEAD || exit 2
-src=/tmp/mut/$id/out/m$k.diff
+src=${SRC:-/tmp/mut/$id/out}/m$k.diff
 [ -f $src ] || src=/verif/seeded/$id-m$k/patch.diff
 (cd $wt && git apply --whitespace=nowarn $src) || { echo "patch failed"; git -C /repo worktree remove --force $wt; exit 2; }
 cd /verif && VERIF_REPO=$wt bin/check $chk "$@" 2>&1 | grep -E "^violation|^VIOLATION|HARNESS|quick:|thorough:" | cut -c1-330
